@@ -23,6 +23,7 @@ func init() {
 }
 
 func runC26(c *core.Ctx) {
+	checkCoinSelectorArithmetic(c)
 	ss := c.Fn(pkBtc, "CoinSelector.SortedSearch")
 	if ss != nil {
 		// the two loop-carried phis: a []*Utxo and a uint64 that is returned with it
